@@ -39,6 +39,8 @@ var Profiles = map[string]Profile{
 		FaultPct: 10, CancelPct: 4, QuiescePct: 10, UnsyncPct: 40, BothPct: 10, SamePct: 10, RootPct: 2, MinSteps: 3, MaxSteps: 7},
 	"C04": {Modes: []string{"two-way-safe", "two-way-resolved", "one-way-safe", "one-way-replica"},
 		FaultPct: 0, CancelPct: 0, QuiescePct: 60, UnsyncPct: 12, BothPct: 30, SamePct: 30, RootPct: 2, MinSteps: 4, MaxSteps: 8},
+	"C11": {Modes: []string{"two-way-safe", "two-way-resolved", "one-way-safe", "one-way-replica"},
+		FaultPct: 5, CancelPct: 3, QuiescePct: 10, UnsyncPct: 10, BothPct: 15, SamePct: 15, RootPct: 25, MinSteps: 3, MaxSteps: 7},
 	"C05": {Modes: []string{"two-way-safe", "two-way-resolved", "one-way-safe", "one-way-replica"},
 		FaultPct: 45, CancelPct: 25, QuiescePct: 10, UnsyncPct: 10, BothPct: 12, SamePct: 10, RootPct: 2, MinSteps: 3, MaxSteps: 7},
 }
